@@ -66,19 +66,33 @@ def run(ctx):
         ctx.ok("C16.M1", mock, "fifo", "returns pop_front() of the locked SALTS queue", config=C)
     else:
         ctx.finding("C16.M1", mock, "fifo", "the mock generator does not return pop_front() of the locked queue (FIFO order / one salt per call is not guaranteed): %s" % vstr(rv, 6), config=C)
-    calls = [b for b, t in D.calls() if t.get("resolved") == mock.name]
-    rets = cfg.return_blocks(D)
-    once = len(calls) == 1 and calls[0] not in cfg.reach_strict(D, calls[0]) and not any(r in cfg.reachable(D, [0], removed_blocks=calls) for r in rets)
-    if once:
-        ctx.ok("C16.M1", D, "one-salt-per-disclosure", "exactly one queue pop on every path through SDJWTDisclosure::new", line=D.term(calls[0]).get("line"), config=C)
-    else:
-        ctx.finding("C16.M1", D, "one-salt-per-disclosure", "SDJWTDisclosure::new does not pop exactly one salt on every path (%d call sites)" % len(calls), config=C)
-    for (b, a0) in imodel.salt_generator(fx, D):
-        p = peel(a0)
-        if p.kind == "call" and p.d["term"].get("resolved") == mock.name:
-            ctx.ok("C16.M1", D, "salt-field", "the salt field of the disclosure text is the popped salt", line=D.term(b).get("line"), config=C)
+    # the salt element of every disclosure text is one pop of the queue made for that disclosure (sa/dtext.py: however the text is assembled,
+    # whoever draws the salt — the constructor or its caller)
+    import dtext
+    M = dtext.Model(fx, C)
+    obs, gens = dtext.salt_obligations(fx, M)
+
+    def pops_queue(name, depth=0):
+        """name is the queue owner, or only forwards to it"""
+        if name == mock.name:
+            return True
+        f_ = fx.fns.get(name)
+        if f_ is None or depth > 3:
+            return False
+        rv_ = peel(vals(f_).return_value())
+        return rv_.kind == "call" and rv_.d["term"].get("resolved_local") and not rv_.kids and pops_queue(rv_.d["term"].get("resolved"), depth + 1)
+    for (ok, f_, what, msg, line) in obs:
+        if what == "salt-is-first-arg":
+            if ok and all(pops_queue(g_) for g_ in gens if g_):
+                ctx.ok("C16.M1", f_, "salt-field", "the salt field of the disclosure text is the popped salt", line=line, config=C)
+            else:
+                ctx.finding("C16.M1", f_, "salt-field", "the salt field of the disclosure text is not the popped salt: %s" % (msg if not ok else "it comes from %s" % sorted(g_ for g_ in gens if g_)), line=line, config=C)
+        elif ok:
+            ctx.ok("C16.M1", f_, "one-salt-per-disclosure", "exactly one queue pop per disclosure: " + msg, line=line, config=C)
         else:
-            ctx.finding("C16.M1", D, "salt-field", "the salt field of the disclosure text is not the popped salt: %s" % vstr(a0, 4), line=D.term(b).get("line"), config=C)
+            ctx.finding("C16.M1", f_, "one-salt-per-disclosure", "the queue is not popped exactly once per disclosure: " + msg, line=line, config=C)
+    if not obs:
+        ctx.finding("C16.M1", D, "salt-field", "no disclosure text with a salt element was found", config=C)
     other = [t for b, t in D.calls() if (t.get("resolved") or "") in ("utils::generate_salt",) or t.get("callee_crate") in ("rand", "rand_core")]
     if other:
         ctx.finding("C16.M1", D, "no-other-salt-source", "SDJWTDisclosure::new also draws randomness (%s) in the deterministic build" % other[0].get("resolved"), line=other[0].get("line"), config=C)
@@ -237,26 +251,46 @@ def m2(ctx, fx, I, C):
 
 
 def m3(ctx, fx, I, D0, C):
-    """taint from ToString::to_string(value) to pattern-based rewrites, interprocedural one level through crate-local callees"""
-    hosts = [f for n, f in sorted(fx.fns.items()) if n.startswith("disclosure::") and not f.is_macro_generated() and f.kind != "closure"
-             and any(t.get("name") == "to_string" and (t.get("self_ty") or "") in ("V", "T", "serde_json::Value") for _, t in f.calls())]
-    D = hosts[0] if hosts else D0
-    dv = vals(D)
-    vparams = [i for i in range(1, D.arg_count + 1) if (D.local_ty(i) or "").lstrip("&") in ("V", "T", "serde_json::Value")] or [D.arg_count]
+    """taint from ToString::to_string(value) to pattern-based rewrites, interprocedural through crate-local callees: the sources are the
+    serialisations of a JSON value wherever they are made (in the constructor, or in its caller that hands the text in)"""
+    import transducer
+    base = ctx.facts("default")
+    SRC_TY = ("V", "T", "serde_json::Value", "&serde_json::Value")
     def is_source(x):
-        return x.kind == "call" and x.d["term"].get("name") == "to_string" and x.kids and peel(x.kids[0]).kind == "param" and peel(x.kids[0]).d["idx"] in vparams and x.fn is D
+        return x.kind == "call" and x.d["term"].get("name") == "to_string" and x.kids and (x.d["term"].get("self_ty") or "") in SRC_TY and not x.d["term"].get("resolved_local")
     stop = lambda x: x.kind == "call" and x.d["term"].get("name") in ("next", "next_back", "nth") and "std::str::Chars" in (x.d["term"].get("self_ty") or "")
-    nsrc = sum(1 for b, t in D.calls() if is_source(dv.call_node(b)))
+    hosts = []
+    for n_ in sorted(I.reach | set(fn_.name for fn_ in fx.fns.values() if fn_.name.startswith("disclosure::"))):
+        f_ = fx.fns.get(n_)
+        if f_ is None or f_.is_macro_generated():
+            continue
+        fv_ = vals(f_)
+        k_ = sum(1 for b, t in f_.calls() if is_source(fv_.call_node(b)))
+        if k_:
+            hosts.append((f_, k_))
+    nsrc = sum(k_ for (_, k_) in hosts)
     ctx.floor("C16.M3", "serialisations of the claim value", nsrc, 1, config=C)
+    D = hosts[0][0] if hosts else D0
     found = 0
+    scanners = []
+    visited = set()
+
     def scan(fn, tainted_params, depth):
         nonlocal found
+        key = (fn.name, tuple(sorted(tainted_params)))
+        if key in visited:
+            return
+        visited.add(key)
         fv = vals(fn)
+
         def tainted(v):
             for x in walk(v, pred_stop=stop):
-                if fn is D and is_source(x):
+                if is_source(x):
                     return True
                 if x.kind == "param" and x.fn is fn and x.d["idx"] in tainted_params:
+                    return True
+                # a member of an argument struct whose member carries the text
+                if x.kind == "field" and x.kids and peel(x.kids[0]).kind == "param" and peel(x.kids[0]).fn is fn and (peel(x.kids[0]).d["idx"], x.d.get("idx")) in tainted_params:
                     return True
             return False
         for b, t in fn.calls():
@@ -270,30 +304,30 @@ def m3(ctx, fx, I, D0, C):
                 ctx.finding("C16.M3", fn, "textual-rewrite:%s(%r)" % (nm, pat),
                             "the serialized JSON text of a claim value is rewritten by pattern (%s %r): the same characters inside a string value are altered, so holder and verifier recover a different claim" % (nm, pat),
                             line=t.get("line"), config=C)
-            if t.get("resolved_local") and t.get("resolved") in fx.fns and depth < 3 and t.get("resolved") != fn.name:
-                tp = set(i + 1 for i, k in enumerate(n.kids) if tainted(k))
+            if t.get("resolved_local") and t.get("resolved") in fx.fns and depth < 4 and t.get("resolved") != fn.name:
+                callee = fx.fns[t["resolved"]]
+                tp = set()
+                for i, k in enumerate(n.kids):
+                    if tainted(k):
+                        tp.add(i + 1)
+                    else:
+                        kp = peel(k)
+                        if kp.kind == "agg" and kp.d["agg"].get("kind") == "adt":
+                            for j_, kk in enumerate(kp.kids):
+                                if tainted(kk):
+                                    tp.add((i + 1, j_))
                 if tp:
-                    scan(fx.fns[t["resolved"]], tp, depth + 1)
-    scan(D, set(), 0)
+                    if callee.name not in base.fns and callee.kind != "closure" and (callee.raw.get("ret_ty") or "") == "std::string::String" and callee not in scanners:
+                        scanners.append(callee)
+                    scan(callee, tp, depth + 1)
+    for (f_, _) in hosts:
+        scan(f_, set(), 0)
     if found == 0:
         ctx.ok("C16.M3", D, "no-textual-rewrite", "the serialized claim value reaches no pattern-based textual rewrite (only character-level processing)", config=C)
     # M3b: mock-only character-level scanners that receive the serialized text must be equivalent to the reference
     # string-literal-aware spacer (finite-state transducer extraction + product exploration)
-    import transducer
-    base = ctx.facts("default")
-    dv2 = vals(D)
     nscan = 0
-    for b, t in D.calls():
-        if not (t.get("resolved_local") and t.get("resolved") in fx.fns):
-            continue
-        callee = fx.fns[t["resolved"]]
-        if callee.name in base.fns or callee.kind == "closure":
-            continue  # exists in the default build too (e.g. the \\u escaper): not part of the mock-only spacing
-        n = dv2.call_node(b)
-        if not any(any(is_source(x) for x in walk(k, pred_stop=stop)) for k in n.kids):
-            continue
-        if (callee.raw.get("ret_ty") or "") != "std::string::String":
-            continue
+    for callee in scanners:
         nscan += 1
         ok, msg, st = transducer.compare_with_reference(callee)
         ctx.stats["scanner:" + callee.name] = st
